@@ -780,6 +780,37 @@ theorem lww_history_twin (env : Env) (s : State) (pre post : List HOp) (its1 its
       exact setItems_frame env _ _ its2 _ _ h2 hsame
     · simp at hok
 
+/-! ### `update_defaults` on a key it mentions -/
+
+/-- **what `update_defaults({k: a})` does to the key it mentions** (a scalar default for a
+top-level key other than `device`, from any state whose accumulated defaults merge to `cur`):
+the call does not raise, appends the mapping to the defaults, and — under the spelling the
+configuration already uses for `k` — writes the new default when the key is absent or when its
+current value is (Python-)equal to the default registered so far (looked up under the spelling
+the defaults use); a value the user has set to something else is kept.  Nothing else changes. -/
+theorem updateDefaults_mentioned_leaf (env : Env) (s : State) (k : Key) (a : Atom) (cur : Dict)
+    (hk : k ≠ "device".toList) (hm : merge env s.defaults = .ok cur) :
+    (updateDefaultsP env s [(k, .leaf a)]).1.config =
+      (match dget s.config (canonicalName k s.config) with
+       | .none => dset s.config (canonicalName k s.config) (.leaf a)
+       | some oldv =>
+          match dget cur (defaultsKey (some (.node cur)) (canonicalName k s.config)) with
+          | some dv => if pyEq dv oldv then dset s.config (canonicalName k s.config) (.leaf a) else s.config
+          | .none => s.config) ∧
+    (updateDefaultsP env s [(k, .leaf a)]).1.defaults = s.defaults ++ [[(k, .leaf a)]] ∧
+    (updateDefaultsP env s [(k, .leaf a)]).2 = .none := by
+  have hc : checkKeyVal env k (.leaf a) = .ok (.leaf a) := by
+    unfold checkKeyVal; rw [if_neg hk]
+  simp only [updateDefaultsP, normaliseTop, hc, hm, bind, Except.bind, updateP, updateLeaf, defaultMatches]
+  cases hg : dget s.config (canonicalName k s.config) with
+  | none => simp
+  | some oldv =>
+    simp only []
+    cases hd : dget cur (defaultsKey (some (.node cur)) (canonicalName k s.config)) with
+    | none => simp
+    | some dv =>
+      by_cases hp : pyEq dv oldv = true <;> simp [hp]
+
 /-! ### exception safety over histories: rejected device requests -/
 
 private def kdev : Key := "device".toList
@@ -1076,6 +1107,9 @@ example : (sortByName [⟨"b.yml", .empty⟩, ⟨"B.yaml", .empty⟩, ⟨"10.yam
     ["10.yaml", "B.yaml", "b.yml"] := by rfl
 example : loadFiles [.empty, .dict cfg0, .unreadable] = .ok [cfg0] ∧ loadFiles [.dict cfg0, .nonDict] = .error .valueError :=
   ⟨rfl, rfl⟩
+
+/-- `update_defaults` on a mentioned key: the hypotheses are satisfiable -/
+example : kab ≠ "device".toList ∧ merge env0 [] = .ok [] := ⟨by decide, rfl⟩
 
 /-- a block entered inside another open block -/
 example : (xenter env0 { s := { config := cfg0, defaults := [] }, stack := [[.insert [kpc]]] }
